@@ -445,6 +445,8 @@ class Body:
             return ("const", op["val"])
         if "static" in op:
             return ("static", op["static"])
+        if "str" in op:
+            return ("str", op["str"])
         txt = op["text"]
         m = re.match(r'^(?:const )?"(.*)"$', txt, re.S)
         if m:
